@@ -433,15 +433,18 @@ def state_fields(pm, clsname):
 def transition_worker(job):
     """Abstract interpretation of <cls>.stop on one representative of every order type of
     (loss, best, best - min_delta) x (counter, patience) x value kind; compared with the stated transition."""
-    repo, clsname, monitor_index, best_f, counter_f = job
+    repo, clsname, monitor_index, best_f, counter_f, consts = job
     it, w = get_interp(repo)
     ml = it.get_module("ginjax.ml")
     cls = getattr(ml, clsname)
     problems = []
+    base_reported = []
     n = 0
     INF = float("inf")
     for kind in KINDS:
-        for delta, best, losses in ((2, 10, (7, 8, 9, 10, 11)), (0, 10, (9, 10, 11)), (2, INF, (5,)), (0, INF, (5,))):
+        # the loss value 0 (falsy, and the boundary of the non-negative losses) is a representative of its own: a
+        # truthiness test or a sign test in stop() separates it from the positive losses
+        for delta, best, losses in ((2, 10, (0, 7, 8, 9, 10, 11)), (0, 10, (0, 9, 10, 11)), (2, INF, (0, 5)), (0, INF, (0, 5)), (0, 0, (0, 1)), (2, 1, (0, 1, 2)), (2, 0, (0,))) + tuple((d, b, tuple(consts)) for d in (0, 2) for b in (10, INF) if consts):
             for loss in losses + (None,):
                 for counter in (0, 1, 2):
                     for patience in (0, 1, 2):
@@ -451,6 +454,12 @@ def transition_worker(job):
                             if isinstance(obj, Rejected):
                                 return dict(n=n, problems=[("rejected", "%s(patience=%d, min_delta=%d, verbose=%d) rejected: %s" % (clsname, patience, delta, verbose, obj.exc), dict(kind=kind))])
                             at = object.__getattribute__(obj, "attrs")
+                            # base case of the induction: a fresh condition has no best loss yet (+inf) and has counted
+                            # no non-improving epoch
+                            b0, c0 = _num(at.get(best_f)), at.get(counter_f)
+                            if (b0 != INF or c0 != 0 or isinstance(c0, bool)) and not base_reported:
+                                base_reported.append(1)
+                                problems.append(("initial", "a freshly constructed %s starts with best loss %r and non-improving epoch counter %r (expected +inf and 0)" % (clsname, b0, c0), dict(kind=kind, patience=patience, min_delta=delta)))
                             at[best_f] = best
                             at[counter_f] = counter
                             at["best_model"] = "model@best"
@@ -533,7 +542,13 @@ def run(ctx):
     tj = []
     for clsname, mi in (("TrainLoss", 2), ("ValLoss", 3)):
         bf, cf = state_fields(pm, clsname)
-        tj.append((ctx.repo, clsname, mi, bf, cf))
+        # every numeric literal of the method (and its neighbours) is a loss representative: a comparison with a
+        # literal in stop() splits the order types there
+        lits = set()
+        for n in ast.walk(pm.func(STOP_MOD, clsname + ".stop")):
+            if isinstance(n, ast.Constant) and isinstance(n.value, (int, float)) and not isinstance(n.value, bool) and 0 <= n.value < 10**6:
+                lits.update(v for v in (n.value - 1, n.value, n.value + 1) if v >= 0)
+        tj.append((ctx.repo, clsname, mi, bf, cf, tuple(sorted(lits - {0, 5, 7, 8, 9, 10, 11}))))
     n_axi = 0
     for job, r in ctx.pairs(transition_worker, tj):
         n_axi += r["n"]
